@@ -13,7 +13,8 @@ OBLIGATIONS = ['Cvise.C01.runPass_safe', 'Cvise.C02.reduce_schedule_irrelevant',
 
 def scens(ctx, n, files=(1,)):
     out = []
-    bias = {'files': list(files), 'p_contract': 0.7, 'p_cache': 1.0, 'max_passes': 3, 'p_faults': 0.0, 'p_small_consts': 0.0}
+    bias = {'files': list(files), 'p_contract': 0.7, 'p_cache': 1.0, 'max_passes': 3, 'p_faults': 0.0, 'p_small_consts': 0.0,
+            'p_twin': 0.4, 'p_own_rank': 0.5}
     while len(out) < n:
         s = D.gen_scenario(ctx.rng, bias)
         s['faults'] = {}
@@ -53,6 +54,47 @@ def scens(ctx, n, files=(1,)):
     return out
 
 
+def twin_family(rng):
+    """the same pass listed with and without max-transforms (as all.json does), an undoing pass in between, so that the
+    unlimited entry meets the very content the limited one started from"""
+    n = rng.randint(3, 5)                      # contents n-1 (largest) … 0; the pass walks n-1 -> n-2 -> … -> 0
+    texts = ['a' * (2 * i + 1) for i in range(n)]
+    step = {'name': 'walk', 'maxT': rng.choice([1, 2]), 'new': {str(c): 0 for c in range(n)}, 'adv': {}, 'aos': {f'{c}.0': 0 for c in range(n)},
+            'tr': {f'{c}.0': ['OK', c - 1, 0] if c > 0 else ['STOP', c, 0] for c in range(n)}}
+    twin = copy.deepcopy(step)
+    twin['maxT'] = None
+    undo = {'name': 'undo', 'maxT': None, 'new': {str(c): 0 for c in range(n)}, 'adv': {}, 'aos': {},
+            'tr': {f'{c}.0': ['OK', n - 1, 0] if c < n - 1 else ['STOP', c, 0] for c in range(n)}}
+    idle = {'name': 'idle', 'maxT': None, 'new': {}, 'adv': {}, 'aos': {}, 'tr': {}}
+    order = rng.choice([[0, 1, 2], [2, 1, 0]])
+    return {'texts': texts, 'files': ['a.c'], 'disk': [n - 1], 'passes': [step, undo, twin, idle],
+            'groups': {'first': order, 'main': [3], 'last': []}, 'cfg': {'cacheOn': True, 'silent': True}, 'consts': {},
+            'test': {str(c): 0 for c in range(n)}, 'faults': {}, 'N': 1, 'p_done': 1.0, 'wait_policy': 'first', 'mode': 'reduce',
+            'contract': False, 'rank': list(range(n)), 'fuel': 400}
+
+
+def real_reformat_pairs(ctx):
+    """real pool, real LinesPass (its `new` reformats the file in place through topformflat and keeps the result if the
+    sanity check passes) met twice with an undoing pass in between: with and without the table the files must agree"""
+    import worldlib as W
+    for text, pred in (('    int a;\n    int b;\n', 'grep -q "int a" a.c && grep -q "int b" a.c'),
+                       ('    int keep1;\n    int x;\n', 'grep -q keep1 a.c')):
+        outs = {}
+        for nc in (False, True):
+            scen = {'name': 'reformat-revisit', 'tree': {'a.c': {'text': text}}, 'test_cases': ['a.c'], 'predicate': pred,
+                    'groups': {'first': [{'name': 'lines', 'arg': '0'}, {'name': 'LinePass', 'arg': 'indent'}, {'name': 'lines', 'arg': '0'}],
+                               'main': [{'name': 'LinePass'}], 'last': []}, 'N': 2, 'timeout': 5, 'cfg': {'no_cache': nc},
+                    'external': {'topformflat': 'standin:topformflat'}}
+            obs = W.run(ctx, scen)
+            ctx.count()
+            outs[nc] = (obs['outcome'], (obs.get('after') or {}).get('a.c'))
+        if outs[False] != outs[True]:
+            ctx.report('cache-changes-the-result:real-lines-pass', f'real LinesPass met twice: with the table {outs[False]}, with --no-cache {outs[True]}',
+                       {'kind': 'real-pair', 'text': text, 'predicate': pred})
+        else:
+            ctx.nontrivial(('real-reformat', text))
+
+
 def run_pairs(ctx, scen_list, diffs, judge_multi=False):
     on = scen_list
     off = []
@@ -82,14 +124,22 @@ def run_pairs(ctx, scen_list, diffs, judge_multi=False):
 def run(ctx):
     if ctx.replay:
         obj = json.load(open(ctx.replay))
+        if obj.get('kind') == 'real-pair':
+            real_reformat_pairs(ctx)
+            print('replayed ->', 'fails' if ctx.violations else 'holds')
+            return 1 if ctx.violations else 0
+        if 'scenario' not in obj:
+            print('this replay names a broken proof or correspondence, not an input')
+            return 1
         run_pairs(ctx, [obj['scenario']], [])
         print('replayed ->', 'fails' if ctx.violations else 'holds')
         return 1 if ctx.violations else 0
     ctx.lean_gate(OBLIGATIONS)
     diffs = []
     n = 250 if ctx.tier == 'quick' else 4000
-    hits, rows = run_pairs(ctx, scens(ctx, n), diffs)
+    hits, rows = run_pairs(ctx, scens(ctx, n) + [twin_family(ctx.rng) for _ in range(6)], diffs)
     hits2, _ = run_pairs(ctx, scens(ctx, n // 4, files=(2, 3)), diffs, judge_multi=True)
+    real_reformat_pairs(ctx)
     ctx.sample({'scenario_key': D.scen_key(rows[0][0]), 'with_cache': rows[0][2]})
 
     def search(budget):
